@@ -90,9 +90,22 @@ impl GWorld {
                 s.push_str(&inc);
             }
         }
-        s.push_str(&format!("tail{i}\n"));
+        if !self.no_tail(i) {
+            s.push_str(&format!("tail{i}\n"));
+        } else if let Some(last) = self.deps[i].last() {
+            // the source ends with a directive: if that directive produced output (include), a line ending is owed at
+            // the end of the file (README splice rule, trailing newline on); an `after` produces nothing
+            if !Self::is_after(i, *last) {
+                s.push('\n');
+            }
+        }
         memo.insert(i, s.clone());
         s
+    }
+    /// every other file with dependencies ends with its last dependency directive as the final line of the
+    /// source (nothing after it); not in marker worlds, whose completeness oracle looks for the tail line
+    fn no_tail(&self, i: usize) -> bool {
+        !self.markers && !self.deps[i].is_empty() && !self.fail_final[i] && i % 2 == 1
     }
     pub fn source(&self, i: usize) -> String {
         let mut s = format!("head{i}\n");
@@ -136,7 +149,9 @@ impl GWorld {
         if self.fail_final[i] {
             s.push_str("@@TXTPP#run exit 3\n");
         }
-        s.push_str(&format!("tail{i}\n"));
+        if !self.no_tail(i) {
+            s.push_str(&format!("tail{i}\n"));
+        }
         s
     }
     /// source name of file i: every third file uses the `foo.inner.txtpp.ext` shape
